@@ -141,6 +141,13 @@ func (e *herr) Unwrap() error {
 	return nil
 }
 
+var sharedErrs sync.Map // obj -> *herr
+
+func (n *hnode) sharedErr() error {
+	v, _ := sharedErrs.LoadOrStore(n.obj, &herr{id: n.obj*1000 + 999})
+	return v.(*herr)
+}
+
 type hnode struct {
 	obj    int
 	typ    el.NodeType
@@ -180,7 +187,13 @@ func (n *hnode) Process(ctx context.Context, e *el.Event) (*el.Event, error) {
 		out = &el.Event{Type: e.Type, CreatedAt: e.CreatedAt, Formatted: map[string][]byte{}, Payload: e.Payload}
 	case 2:
 	case 3:
-		err = &herr{id: n.obj*1000 + visit + 1}
+		if n.obj%2 == 0 {
+			// the same error VALUE whenever this node fails (a stored / sentinel error): equal warnings of different
+			// pipelines are still one warning each
+			err = n.sharedErr()
+		} else {
+			err = &herr{id: n.obj*1000 + visit + 1}
+		}
 	case 4:
 		out = e
 		err = &herr{id: n.obj*1000 + visit + 1}
